@@ -105,7 +105,7 @@ func propOne(c harness.Case) harness.Result {
 }
 
 var base = []string{"*", "_", "a", " ", "."}
-var extended = []string{"*", "_", "a", " ", ".", "é", " ", "“", "\f", "€"}
+var extended = []string{"*", "_", "a", " ", ".", "é", " ", "“", "\f", "€", "\U00010100"}
 
 func enumerate(t *testing.T, plan harness.Plan, name string, alpha []string, maxLen int) {
 	cfg := harness.Cfg()
@@ -256,6 +256,11 @@ func genAfterMultiLine(t *rapid.T) harness.Case {
 	return c
 }
 
+// openers: '[' and '!' without any ']' can never form a link or image; they are
+// plain punctuation for the delimiter-run rules, but the library keeps them on
+// its delimiter stack until the end of the paragraph.
+var openers = []string{"*", "_", "a", " ", "[", "!"}
+
 func genRandom(t *rapid.T) harness.Case {
 	n := rapid.IntRange(11, 40).Draw(t, "len")
 	var sb strings.Builder
@@ -278,11 +283,12 @@ const ruleNT = "non-trivial = the string has >= 2 delimiter runs one of which si
 func TestProperty(t *testing.T) {
 	plan := harness.Plan{Prop: "C11", Suppress: findings.Suppressor("C11"), Checks: []harness.Check{
 		{Name: "random", Quick: 100000, Thorough: 1000000, Gen: genRandom, Prop: propOne,
-			Rule: "random strings of length 11-40 over {* _ a SP . é NBSP “ FF €} (delimiters weighted), as a paragraph when block-safe and as ATX heading content; oracle = spec process-emphasis without search bounds; " + ruleNT},
+			Rule: "random strings of length 11-40 over {* _ a SP . é NBSP “ FF € U+10100} (delimiters weighted), as a paragraph when block-safe and as ATX heading content; oracle = spec process-emphasis without search bounds; " + ruleNT},
 		{Name: "after_multi_line", Quick: 60000, Thorough: 600000, Gen: genAfterMultiLine, Prop: propAfterMultiLine,
 			Rule: "metamorphic: a string of 1-14 symbols over the extended alphabet placed directly after an inline link, image, code span or reference whose source spans two lines (at top level, in a quote, in a list item; after an optional opener), compared with the same paragraph in which that construct is spelled on one line; " + ruleNT},
 		{Name: "exhaustive_base", Prop: propOne, Rule: "exhaustive enumeration over {* _ a SP .}; each string as a one-paragraph document when block-safe (no edge spaces, not a thematic break, not a list item) and always as ATX heading content; " + ruleNT},
-		{Name: "exhaustive_extended", Prop: propOne, Rule: "exhaustive enumeration over {* _ a SP . é NBSP “ FF €}; " + ruleNT},
+		{Name: "exhaustive_openers", Prop: propOne, Rule: "exhaustive enumeration over {* _ a SP [ !}: bracket openers that are never closed stay on the delimiter stack to the end of the paragraph and are plain punctuation for emphasis; " + ruleNT},
+		{Name: "exhaustive_extended", Prop: propOne, Rule: "exhaustive enumeration over {* _ a SP . é NBSP “ FF € U+10100}; " + ruleNT},
 	}}
 	plan.Checks = append(plan.Checks, harness.Check{Name: "long_runs", Prop: propOne,
 		Rule: "templates with one delimiter run of every length 1..700 (a{N}b**, **a{N}b, {N}a{M} ...) for both delimiters: run lengths far beyond what enumeration reaches, around 255/256 and 65535-style boundaries of narrow counters; " + ruleNT})
@@ -298,6 +304,9 @@ func TestProperty(t *testing.T) {
 		enumerate(t, plan, "exhaustive_base", base, bl)
 		if !t.Failed() {
 			enumerate(t, plan, "exhaustive_extended", extended, el)
+		}
+		if !t.Failed() {
+			enumerate(t, plan, "exhaustive_openers", openers, el+2)
 		}
 	}
 	harness.Run(t, plan)
